@@ -192,6 +192,9 @@ func (c *Ctx) Finish() int {
 		newViol++
 		h := sha256.Sum256([]byte(k))
 		path := filepath.Join(VerifDir(), "replays", fmt.Sprintf("%s-%s.json", c.ID, hex.EncodeToString(h[:6])))
+		if d := os.Getenv("VERIF_EVIDENCE_DIR"); d != "" {
+			path = filepath.Join(d, fmt.Sprintf("%s-%s.replay.json", c.ID, hex.EncodeToString(h[:6])))
+		}
 		b, _ := json.MarshalIndent(v, "", " ")
 		os.MkdirAll(filepath.Dir(path), 0o755)
 		os.WriteFile(path, b, 0o644)
@@ -233,6 +236,9 @@ func (c *Ctx) writeEvidence(newViol, knownSeen int) {
 	}
 	b, _ := json.MarshalIndent(ev, "", " ")
 	p := filepath.Join(VerifDir(), "evidence", c.ID+".json")
+	if d := os.Getenv("VERIF_EVIDENCE_DIR"); d != "" { // self-test runs against mutated code must not overwrite real evidence
+		p = filepath.Join(d, c.ID+".json")
+	}
 	os.MkdirAll(filepath.Dir(p), 0o755)
 	if err := os.WriteFile(p, b, 0o644); err != nil {
 		fmt.Println("HARNESS-ERROR: cannot write evidence:", err)
